@@ -217,37 +217,35 @@ func (b *file) Close() error {
 type dir struct {
 	pb       *pb.Directory
 	children map[digest.Digest]*pb.Directory
+	offset   int // number of entries already returned by ReadDir
 	*info
 }
 
 // ReadDir implements listing the contents of a directory stored in the CAS. This is entirely based off the original
 // data from the Tree proto so doesn't do any additional fetching.
 func (p *dir) ReadDir(n int) ([]iofs.DirEntry, error) {
-	dirSize := n
-	if n <= 0 {
-		dirSize = len(p.pb.Files) + len(p.pb.Symlinks) + len(p.pb.Files)
-	}
-	ret := make([]iofs.DirEntry, 0, dirSize)
+	ret := make([]iofs.DirEntry, 0, len(p.pb.Directories)+len(p.pb.Files)+len(p.pb.Symlinks))
 	for _, dirNode := range p.pb.Directories {
-		if n > 0 && len(ret) == n {
-			return ret, nil
-		}
 		dir := p.children[digest.NewFromProtoUnvalidated(dirNode.Digest)]
 		ret = append(ret, newDirInfo(dirNode.Name, dir))
 	}
 	for _, file := range p.pb.Files {
-		if n > 0 && len(ret) == n {
-			return ret, nil
-		}
-
 		ret = append(ret, newFileInfo(file))
 	}
 	for _, link := range p.pb.Symlinks {
-		if n > 0 && len(ret) == n {
-			return ret, nil
-		}
 		ret = append(ret, newSymlinkInfo(link))
 	}
+	// Per the io/fs.ReadDirFile contract, successive calls continue from where the last one finished.
+	ret = ret[p.offset:]
+	if n > 0 {
+		if len(ret) == 0 {
+			return nil, io.EOF
+		}
+		if n < len(ret) {
+			ret = ret[:n]
+		}
+	}
+	p.offset += len(ret)
 	return ret, nil
 }
 
